@@ -97,8 +97,24 @@ def warm_up():
         dialogue.run_builder(f, True, True, {}, default_for(f))
 
 
+def brief(script):
+    """Answer script with runs of equal answers and over-long answers abbreviated."""
+    out = []
+    for m, answers in script.items():
+        runs = []
+        for a in answers:
+            a = a if len(a) <= 40 else "%s...(%d characters)" % (a[:12], len(a))
+            if runs and runs[-1][0] == a:
+                runs[-1][1] += 1
+            else:
+                runs.append([a, 1])
+        out.append("%s: [%s]" % (m, ", ".join(repr(a) if n == 1 else "%r x%d" % (a, n) for a, n in runs)))
+    return "{%s}" % "; ".join(out)
+
+
 def _task(t):
-    fam, allm, nc, scripts = t
+    fam, allm, nc, d, lo, hi = t
+    scripts = list(scripts_upto(fam, allm, d))[lo:hi]
     acc = sweep.new_acc()
     warm_up()
     for si, script in enumerate(scripts):
@@ -108,8 +124,8 @@ def _task(t):
         acc["calls"] += len(run["asked"])
         acc["cmp"] += 1
         if why:
-            sweep.bad(acc, {"what": "ask_interactively(%s, all_metrics=%s, no_colors=%s) with answers %r: %s" % (
-                fam, allm, nc, script, why), "kind": "dialogue", "family": fam,
+            sweep.bad(acc, {"what": "ask_interactively(%s, all_metrics=%s, no_colors=%s) with answers %s: %s" % (
+                fam, allm, nc, brief(script), why), "kind": "dialogue", "family": fam,
                 "input": {"all": allm, "no_colors": nc, "script": script, "version_arg": va},
                 "signature": {"kind": "dialogue", "family": fam}})
             continue
@@ -162,11 +178,11 @@ def run(ctx, res):
         sc = list(scripts_upto(fam, allm, d))
         space["%s.%s" % (fam, "all" if allm else "mandatory")] = {"deviations": d, "scripts": len(sc)}
         for i in range(0, len(sc), 400):
-            tasks.append((fam, allm, True, sc[i:i + 400]))
+            tasks.append((fam, allm, True, d, i, i + 400))
         # colours on: <=1 deviation
         sc1 = list(scripts_upto(fam, allm, 1))
         for i in range(0, len(sc1), 400):
-            tasks.append((fam, allm, False, sc1[i:i + 400]))
+            tasks.append((fam, allm, False, 1, i, i + 400))
     accs = core.task_map(_task, ctx.rot(tasks))
     tot = sweep.merge(accs)
     cov = res.coverage
